@@ -6,6 +6,7 @@ mod c05;
 mod c06;
 mod c10;
 mod c12;
+mod c13;
 mod c16;
 mod c17;
 mod c18;
@@ -46,6 +47,7 @@ fn main() {
         let v: serde_json::Value = serde_json::from_str(&txt).expect("replay file is JSON");
         let code = match v["property"].as_str().unwrap_or("") {
             "C17" => c17::replay(&v),
+            "C13" => c13::replay(&v),
             "C12" => c12::replay(&v),
             "C10" => c10::replay(&v),
             "C18" => c18::replay(&v),
@@ -102,6 +104,7 @@ fn main() {
         "C06" => c06::run(tier),
         "C10" => c10::run(tier),
         "C12" => c12::run(tier),
+        "C13" => c13::run(tier),
         "C16" => c16::run(tier),
         "C17" => c17::run(tier),
         "C18" => c18::run(tier),
